@@ -40,8 +40,154 @@ def c01_batches(tier):
     return bs
 
 
+# ----------------------------------------------------------------------------- C05
+TINY = "S:n2:N1024:k1:l1:B8:t1:b1:aks1e-9:abk1e-9:amax0.01"
+
+
+def c05_batches(tier):
+    q = tier == "quick"
+    bs = []
+    for be in BACKENDS:
+        for var in ("optim", "debug"):
+            bs.append(B("io-swarm-%s-%s" % (be, var), "io", be, var, 250 if q else 4000, spec="swarm:8", specpool=4, nkeys=2, weight=20 if q else 200))
+            bs.append(B("restart-swarm-%s-%s" % (be, var), "gates", be, var, (60 if q else 1200) * (1 if var == "optim" else 0.4), spec="swarm:24",
+                        specpool=6, nkeys=2, mode="netlist", gates=16, pfault=0.9, stats=0, weight=25 if q else 250))
+    for spec in ("P128", "P80"):
+        bs.append(B("io-%s-spqlios-fma-optim" % spec, "io", "spqlios-fma", "optim", 3 if q else 24, spec=spec, nkeys=1, maxobj=4, weight=80 if q else 400,
+                    det_count=1, max_procs=3))
+        bs.append(B("restart-%s-spqlios-fma-optim" % spec, "gates", "spqlios-fma", "optim", 3 if q else 40, spec=spec, nkeys=1, mode="netlist",
+                    gates=8, pfault=1.0, stats=0, weight=80 if q else 400, det_count=1, max_procs=3))
+        if not q:
+            for be in BACKENDS[1:]:
+                bs.append(B("io-%s-%s-optim" % (spec, be), "io", be, "optim", 6, spec=spec, nkeys=1, maxobj=4, weight=200, det_count=1, max_procs=3))
+                bs.append(B("restart-%s-%s-optim" % (spec, be), "gates", be, "optim", 8, spec=spec, nkeys=1, mode="netlist", gates=8, pfault=1.0,
+                            stats=0, weight=200, det_count=1, max_procs=3))
+    return bs
+
+
+# ----------------------------------------------------------------------------- C17
+def c17_batches(tier):
+    q = tier == "quick"
+    bs = []
+    for be in BACKENDS:
+        for var in ("optim", "debug"):
+            bs.append(B("cloudkey-swarm-%s-%s" % (be, var), "cloudkey", be, var, (50 if q else 600) * (1 if var == "optim" else 0.5), spec="swarm:32",
+                        specpool=25 if q else 300, nkeys=3, weight=20 if q else 200))
+    for spec in ("P128", "P80"):
+        for be in (["spqlios-fma", "fftw"] if q else BACKENDS):
+            bs.append(B("cloudkey-%s-%s-optim" % (spec, be), "cloudkey", be, "optim", 2 if q else 12, spec=spec, nkeys=1 if q else 6, weight=60 if q else 300,
+                        det_count=1, max_procs=2 if q else 6))
+    return bs
+
+
+# ----------------------------------------------------------------------------- C18
+SWEEP_KINDS = {  # kind -> number of 2048-byte chunks needed to cover its export (upper bound, verified by the judge)
+    "LweParams": 1, "LweSample": 1, "LweKey": 1, "TLweParams": 1, "TLweSample": 1, "TLweKey": 1, "TGswParams": 1, "TGswSample": 1, "TGswKey": 1,
+    "LweKeySwitchKey": 3, "GateBootstrappingParameterSet": 1, "GateCiphertext": 1,
+    "LweBootstrappingKey": 30, "CloudKeySet": 30, "SecretKeySet": 33,
+}
+
+
+def c18_batches(tier):
+    q = tier == "quick"
+    bs = []
+    # exhaustive crash-point sweep: every byte offset of the export of a small-parameter object of every type, both transports
+    for kind, chunks in SWEEP_KINDS.items():
+        big = chunks > 3
+        be = "spqlios-fma"
+        bs.append(B("sweep-%s" % kind, "iofault", be, "optim", chunks, spec=TINY, kind=kind, fmode="sweep", chunk=2048, ctxseed=11, oseed=5,
+                    n=5, N=8, k=1, l=2, Bgbit=4, weight=60 if big else 4, det_count=1))
+    if not q:
+        for be in BACKENDS[1:]:
+            for kind in ("CloudKeySet", "SecretKeySet", "LweKeySwitchKey", "LweKey", "TGswSample"):
+                bs.append(B("sweep-%s-%s" % (kind, be), "iofault", be, "optim", SWEEP_KINDS[kind], spec=TINY, kind=kind, fmode="sweep", chunk=2048,
+                            ctxseed=12, oseed=6, n=7, N=4, k=2, l=3, Bgbit=2, weight=60, det_count=1))
+    # seeded mix of truncations at boundaries, corrupted titles / tags, substitutions, on every build
+    for be in BACKENDS:
+        for var in ("optim", "debug"):
+            bs.append(B("mix-%s-%s" % (be, var), "iofault", be, var, (40 if q else 800) * (1 if var == "optim" else 0.5), spec="swarm:4", specpool=3,
+                        fmode="mix", attempts=40, weight=15 if q else 150))
+    for spec in ("P128", "P80"):
+        bs.append(B("mix-%s" % spec, "iofault", "spqlios-fma", "optim", 2 if q else 16, spec=spec, fmode="mix", attempts=5,
+                    kind="CloudKeySet" if spec == "P128" else "SecretKeySet", weight=60 if q else 300, det_count=1, max_procs=2 if q else 8))
+    return bs
+
+
+def c18_judge(tier, batches, results, cov, judged):
+    """exhaustiveness of the sweeps: the chunks of every kind must cover its whole export"""
+    out = []
+    ex = True
+    for b, (recs, deaths, wall) in zip(batches, results):
+        if b["opts"].get("fmode") != "sweep":
+            continue
+        size = max([r.get("stats", {}).get("sweep.bytes", 0) for r in recs] + [0])
+        covered = b["count"] * int(b["opts"]["chunk"])
+        judged["sweep:" + b["name"]] = {"export_bytes": int(size), "offsets_covered": int(min(covered, size)), "complete": covered >= size and len(recs) == b["count"]}
+        if covered < size or len(recs) != b["count"]:
+            ex = False
+    cov["exhaustive_sweeps"] = ex
+    return out
+
+
+def c18_extra(tier, batches, results, cov):
+    return {"exhaustive": False, "exhaustive_note": "the truncation sweeps over the small-parameter objects are exhaustive over byte offsets (see judged_statistics); "
+            "the mix batches and the default-set objects are sampled", "sweeps_complete": bool(cov.get("exhaustive_sweeps"))}
+
+
 # ----------------------------------------------------------------------------- registry
 RECIPES = {
+    "C05": {
+        "level": "exploration",
+        "batches": c05_batches,
+        "rule": "io: one run = a seeded sequence of 1-12 objects (15 exportable kinds; random / extreme / zero contents; noise parameters from a list "
+                "spanning 1e-12..0.5 incl. 2^-15, 2^-25, 7.18e-9) written into ONE stream on one transport with seeded write chunking, re-written on "
+                "the other transport, read back in order through a seeded short-read reader, re-exported; gates/netlist: circuit evaluated twice, "
+                "second pass with ciphertext wire trips, duplicated requests and cloud restarts (cloud key re-imported from the store) and compared "
+                "bit for bit. non-trivial = every run (each exercises at least chunked writes); distinct = hash of (context, kinds, contents, wire seeds)",
+        "technique": "deterministic simulation of the store/wire (fopencookie FILE* and custom streambuf, seeded chunking and short reads) "
+                     "with crash/restart of the cloud actor; history checks over recorded bytes and objects",
+        "level_text": "Seeded exploration: byte equality across transports and chunkings, deep field equality (doubles bit for bit), re-export idempotence, "
+                      "exact consumption of concatenated streams, and bit-identical gate outputs and decryptions after the cloud key has been "
+                      "re-imported mid-circuit. Sampling over objects, contents and chunkings; not a proof.",
+        "level_note": "Default-set keys (113 MB) appear a few times per run of the check, small swarm keys thousands of times. Comparators are the "
+                      "harness's own field-by-field code; per-row variance of key material is expected back as the common maximum, as the property states.",
+        "assumptions": ["harness comparators enumerate every field of every public structure of the pinned headers"],
+    },
+    "C17": {
+        "level": "exploration",
+        "batches": c17_batches,
+        "rule": "one run = one (parameter set, key seed, transport, write chunking): the cloud key export is captured by a write recorder (every "
+                "byte of every write call), measured against the size the parameters determine, compared with the secret key set export "
+                "(strict prefix) and searched for every encoding of the LWE key and of ring-key windows (int32, bytes, ASCII, packed bits both "
+                "orders; only non-degenerate patterns >= 16 bytes); then imported and used. All runs count as non-trivial; distinct = hash of "
+                "(spec, key seed, transport, chunk seed)",
+        "technique": "deterministic simulation of the export path with a write recorder on both transports; history check over the recorded bytes",
+        "level_text": "Seeded exploration over keys, parameter sets (both defaults plus small sets), transports and chunkings; exact-size, "
+                      "strict-prefix and absence-of-secret oracles over everything written, plus an import-and-evaluate check.",
+        "level_note": "The substring search can only find the encodings it enumerates (those the library uses plus packed/ASCII variants); a "
+                      "self-test confirms on every run that the int32 encoding IS found in the secret key set export.",
+        "assumptions": ["secret material would be leaked in one of the enumerated encodings"],
+    },
+    "C18": {
+        "level": "fault_enumeration",
+        "batches": c18_batches,
+        "judge": c18_judge,
+        "coverage_extra": c18_extra,
+        "rule": "sweep: every byte offset of the export of one small-parameter object per type (15 types) is used as a crash point of the writer "
+                "(F-trunc) on both transports; mix: seeded truncations biased to section/array boundaries +-8, single-byte corruptions of title "
+                "words and type tags {x^1, x^0x80, 0, LF, CR, random}, and (exporter A -> importer B) substitutions whose leading title/tag "
+                "differs, with seeded short reads on top. Each attempt is classified in-process {abort, null-deref, exception, failed stream, "
+                "returned clean}; returned-clean is accepted only when the object is field-equal to the original. non-trivial = run with >= 1 "
+                "fault fired; distinct = hash of (object, fault list)",
+        "technique": "fault enumeration inside the deterministic simulator: crash points of the writer (every prefix), corrupted and mistyped "
+                     "streams delivered through the simulated transports; in-process outcome classification via interposed abort + SIGSEGV capture",
+        "level_text": "Exhaustive over byte offsets for the small-parameter object of each of the 15 exportable types on both transports "
+                      "(fault enumeration), sampled for default-set objects, title/tag corruptions and substitutions.",
+        "level_note": "Outcome classes are obtained in-process (interposed abort -> siglongjmp, SIGSEGV handler accepting only addresses < 4096 as "
+                      "null dereference, catch(...)); a fault at any other address is reported as out-of-bounds. Read errors (EIO) are not injected: "
+                      "the property does not quantify over them (see DESIGN.md).",
+        "assumptions": ["abort/null-dereference/uncaught exception inside an import terminate a real process"],
+    },
     "C01": {
         "level": "exploration",
         "batches": c01_batches,
